@@ -167,7 +167,7 @@ package extendeddaemonset
 //@   loop 7 invariant len(daemonsetSpec.Strategy.Canary.NodeAntiAffinityKeys) != 0 && len(nodeList.Items) > 0 ==> len(antiAffinityKeysValues) >= 1
 //@   loop 7 modifies mapof(antiAffinityKeysValues), elems(currentNodes)
 //@   loop 7 invariant currentNodes == nil || freshroot(currentNodes)
-//@   loop 7 invariant [C04,C15] more-nodes-are-searched-only-while-fewer-than-requested: len(currentNodes) < nbCanaryPod
+//@   loop 7 invariant len(currentNodes) < nbCanaryPod
 //@   loop 7 invariant [C15] forall i int :: 0 <= i && i < len(currentNodes) ==> exists j int :: 0 <= j && j < len(nodeList.Items) && currentNodes[i] == nodeList.Items[j].ObjectMeta.Name
 //@   loop 8 invariant true
 //@
